@@ -56,8 +56,8 @@ def clean(wt):
 
 
 def confirm(pid, k):
-    wt = f'/tmp/wt/{pid}'
-    src = f'/tmp/wt/{pid}-out/m{k}'
+    wt = os.environ.get('MUTANT_WT') or f'/tmp/wt/{pid}'
+    src = f'{wt}-out/m{k}'
     patch = os.path.join(src, 'patch.diff')
     run = open(os.path.join(src, 'RUN.md')).read()
     clean(wt)
@@ -114,7 +114,7 @@ def confirm(pid, k):
         feats = ' ' + m.group(1)
     # (library and integration tests: what the pinned suite — cargo nextest — runs; doctests are not part of it)
     cmd = f'cargo test {pk}{feats} --offline --no-fail-fast --lib --tests'
-    base_file = f'/tmp/wt/{pid}-out/my-baseline-{"-".join(crates)}{feats.replace(" ", "_").replace("=", "_")}.json'
+    base_file = f'{wt}-out/my-baseline-{"-".join(crates)}{feats.replace(" ", "_").replace("=", "_")}.json'
     if os.path.exists(base_file):
         base = json.load(open(base_file))
     else:
@@ -171,7 +171,7 @@ def confirm(pid, k):
 
 
 def evaluate(pid, k, checks):
-    wt = f'/tmp/wt/{pid}'
+    wt = os.environ.get('MUTANT_WT') or f'/tmp/wt/{pid}'
     dst = f'{VERIF}/seeded/{pid}-m{k}'
     patch = os.path.join(dst, 'patch.diff')
     meta = json.load(open(os.path.join(dst, 'meta.json')))
@@ -207,7 +207,7 @@ if __name__ == '__main__':
         sys.exit(2)
     # one user of a scratch worktree at a time
     import fcntl
-    _lock = open(f'/tmp/wt/{sys.argv[2]}.lock', 'w')
+    _lock = open((os.environ.get('MUTANT_WT') or f'/tmp/wt/{sys.argv[2]}') + '.lock', 'w')
     fcntl.flock(_lock, fcntl.LOCK_EX)
     if sys.argv[1] == 'confirm':
         sys.exit(confirm(sys.argv[2], sys.argv[3]))
